@@ -27,6 +27,23 @@ def pick_count(rng, lo, hi, D):
     return min(max(k, lo), hi)
 
 
+def subapi_want(N, D, c):
+    """what the `subapi` op must print for a time_point of c ticks of N/D s (exact rational arithmetic); None: outside the second range"""
+    from . import civil as CV
+    x = Fraction(c * N, D)
+    sec = x.numerator // x.denominator
+    if not (I64MIN + 1 <= sec <= I64MAX): return None
+    fs = (x - sec) * 10**15
+    fs = fs.numerator // fs.denominator
+    cs = CV.civil_of_sec(sec)
+    frac = ('%015d' % fs).rstrip('0')
+    ys = ('-' if cs[0] < 0 else '') + str(abs(cs[0]))
+    txt = '%s-%02d-%02d %02d:%02d:%02d%s' % (ys, cs[1], cs[2], cs[3], cs[4], cs[5], ('.' + frac) if frac else '')
+    d15 = '%015d' % fs
+    txt += '|%02d.%s|%s|%02d.%s|%d' % (cs[5], d15, d15[:12], cs[5], d15[:3], sec)
+    return 'S %s | %s | %s' % (CV.fmt(cs), CV.fmt(cs), txt.encode().hex())
+
+
 def run_C18(chk):
     chk.prepare_model(['Cctz.Properties.C18', 'Cctz.Properties.C07Whole'], THEOREMS['C18'] + ['Cctz.C07Whole.frac_truncated', 'Cctz.C07Whole.frac_star'])
     exe = chk.harness('san')
@@ -47,6 +64,11 @@ def run_C18(chk):
     for (N, D, rep, lo, hi) in PANEL:
         for _ in range(per // 10):
             c = pick_count(rng, lo, hi, D)
+            if D >= 1000 and rng.random() < 0.3:
+                # a fraction with few significant digits: x·10^k ticks past a whole second (every "last non-zero digit" position)
+                k = rng.randrange(0, len(str(D)) - 1)
+                c = rng.randrange(-3, 4) * D + rng.choice([-1, 1]) * rng.randrange(1, 1000) * 10**k
+                c = min(max(c, lo), hi)
             lines.append('subapi %d %d %d %s' % (N, D, c, rep)); meta.append(('subapi', N, D, c))
     for (Num, rep, lo, hi) in JOIN_COARSE:
         for _ in range(per // 2):
@@ -111,19 +133,8 @@ def run_C18(chk):
             else: nontriv.add(lines[i])
         elif m[0] == 'subapi':
             _, N, D, c = m
-            x = Fraction(c * N, D)
-            sec = x.numerator // x.denominator
-            if not (I64MIN + 1 <= sec <= I64MAX): continue
-            fs = (x - sec) * 10**15
-            fs = fs.numerator // fs.denominator
-            from . import civil as CV
-            cs = CV.civil_of_sec(sec)
-            frac = ('%015d' % fs).rstrip('0')
-            ys = ('-' if cs[0] < 0 else '') + str(abs(cs[0]))
-            txt = '%s-%02d-%02d %02d:%02d:%02d%s' % (ys, cs[1], cs[2], cs[3], cs[4], cs[5], ('.' + frac) if frac else '')
-            d15 = '%015d' % fs
-            txt += '|%02d.%s|%s|%02d.%s|%d' % (cs[5], d15, d15[:12], cs[5], d15[:3], sec)
-            want = 'S %s | %s | %s' % (CV.fmt(cs), CV.fmt(cs), txt.encode().hex())
+            want = subapi_want(N, D, c)
+            if want is None: continue
             chk.count('subapi')
             if out != want:
                 chk.report('lookup/convert/format of a time_point of %d ticks of %d/%d s give `%s`; the whole second at or below the instant and the truncated fraction give `%s`' % (c, N, D, out, want),
